@@ -483,6 +483,7 @@ def run(ck):
                           "%r is accepted by a default evaluator (%s); a fresh process rejects it" % (src_, who),
                           {"expr": src_, "names": ["x"], "kind": "history2", "who": who})
     ck.notes["history2_oracle_runs"] = n_hist2
+    ck.notes["concurrent_compile_runs"] = concurrent_compile_oracle(ck, 4000 if thorough else 1200)
     hist_srcs = ["x + y", "max(x, y)", "y", "x * y - 1", "(x, y)", "abs(y) if x else y", "x < y < 2", "min(y, 1)"]
     n_hist = 0
     for src_ in hist_srcs:
@@ -530,6 +531,68 @@ def run(ck):
                           "not what the expression reads)" % (src_, env, got, want), {"expr": src_, "names": sorted(env), "variables": env})
     ck.notes["value_oracle_runs"] = n_val
     ck.cov["trusted_base"] = TRUSTED
+
+
+def concurrent_compile_oracle(ck, attempts):
+    """Acceptance must not depend on what ANOTHER THREAD is compiling: thread A keeps compiling an expression that uses a
+    name it did not declare (must always be rejected) while thread B compiles expressions that legitimately declare that
+    name -- through one shared evaluator, and through ParametricSweepFactory.create (whatever evaluator it uses)."""
+    import sys, threading
+    from semantiva.utils.safe_eval import ExpressionEvaluator, ExpressionError
+    from semantiva.data_processors.parametric_sweep_factory import ParametricSweepFactory, SequenceSpec
+    from semantiva.examples.test_utils import FloatDataCollection, FloatMultiplyOperation
+    old = sys.getswitchinterval()
+    sys.setswitchinterval(1e-6)
+    total = 0
+    try:
+        for how in ("shared-evaluator", "sweep-factory"):
+            ev = ExpressionEvaluator()
+            stop = threading.Event()
+            accepted = []
+
+            def victim():
+                for i in range(attempts):
+                    if stop.is_set():
+                        break
+                    try:
+                        if how == "shared-evaluator":
+                            ev.compile("(t, license)", {"t"})
+                        else:
+                            ParametricSweepFactory.create(element=FloatMultiplyOperation, element_kind="DataOperation", collection_output=FloatDataCollection,
+                                                          vars={"t": SequenceSpec([1.0, 2.0])}, parametric_expressions={"factor": "t + license"},
+                                                          mode="combinatorial", broadcast=False)
+                        accepted.append(i)
+                        stop.set()
+                    except (ExpressionError, ValueError, TypeError):
+                        pass
+
+            def other():
+                while not stop.is_set():
+                    try:
+                        if how == "shared-evaluator":
+                            ev.compile("t + license + credits + copyright", {"t", "license", "credits", "copyright"})
+                        else:
+                            ParametricSweepFactory.create(element=FloatMultiplyOperation, element_kind="DataOperation", collection_output=FloatDataCollection,
+                                                          vars={"t": SequenceSpec([1.0]), "license": SequenceSpec([2.0]), "credits": SequenceSpec([1.0])},
+                                                          parametric_expressions={"factor": "t + license + credits"}, mode="combinatorial", broadcast=False)
+                    except Exception:  # noqa
+                        pass
+            tb = threading.Thread(target=other, daemon=True)
+            ta = threading.Thread(target=victim, daemon=True)
+            tb.start()
+            ta.start()
+            ta.join(120)
+            stop.set()
+            tb.join(10)
+            total += attempts
+            if accepted:
+                ck.fail_input("C11:accepted-foreign-name:concurrent-compile:%s" % how,
+                              "an expression using the undeclared name `license` was accepted (attempt %d) while another thread compiled expressions "
+                              "that declare it (%s)" % (accepted[0], how), {"expr": "(t, license)" if how == "shared-evaluator" else "t + license", "names": ["t"],
+                                                                           "kind": "concurrent", "how": how})
+    finally:
+        sys.setswitchinterval(old)
+    return total
 
 
 def replay(obj):
